@@ -470,7 +470,64 @@ def F27():
     return same, f"wrote {vals} read {r.v}"
 
 
-ALL = dict(F26=F26, F27=F27, F24=F24, F25=F25, F23=F23, F10=F10, F12=F12, F17=F17, F18=F18, F19=F19, F11=F11, F13=F13, F20=F20, F21=F21, F22=F22, F1=F1, F2=F2, F3=F3, F4=F4, F5=F5, F6=F6, F7=F7, F8=F8, F9=F9, F14=F14)
+def F28():
+    import numpy as np
+    from armi.nuclearDataIO.cccc import pmatrx
+    from armi.nuclearDataIO.tests.test_xsLibraries import PMATRX_AA
+
+    lib = pmatrx.readBinary(PMATRX_AA)
+    lib.pmatrxMetadata["maxScatteringOrder"] = 3
+    for nuc in lib.nuclides:
+        nuc.pmatrxMetadata["maxScatteringOrder"] = 3
+        sh = nuc.isotropicProduction.shape
+        nuc.linearAnisotropicProduction = np.full(sh, 2.0)
+        nuc.nOrderProductionMatrix[3] = np.full(sh, 3.0)
+    with tempfile.TemporaryDirectory() as tmp:
+        f = os.path.join(tmp, "p3.bin")
+        pmatrx.writeBinary(lib, f)
+        try:
+            l2 = pmatrx.readBinary(f)
+        except Exception as e:  # noqa
+            return False, f"PMATRX with order-3 production matrices cannot be read back: {type(e).__name__}: {str(e)[:80]}"
+    return bool(np.all(l2.nuclides[0].nOrderProductionMatrix[3] == 3.0)), "PMATRX order-3 round trip"
+
+
+def F29():
+    from armi import settings
+
+    cs = settings.Settings()
+    with tempfile.TemporaryDirectory() as tmp:
+        f = os.path.join(tmp, "full.yaml")
+        cs.writeToYamlFile(f, style="full")
+        try:
+            cs2 = settings.Settings(f)
+        except Exception as e:  # noqa
+            return False, f"a full-style settings file of all defaults cannot be read back: {type(e).__name__}: {str(e)[:100]}"
+    diff = [k for k in cs.keys() if k != "versions" and cs[k] != cs2[k]]
+    return not diff, f"settings differing after full-style round trip: {diff}"
+
+
+def F30():
+    from armi.physics.neutronics import crossSectionGroupManager as x
+    from armi.physics.neutronics.fissionProductModel.tests import test_lumpedFissionProduct
+    from armi.reactor.tests.test_blocks import buildSimpleFuelBlock
+
+    bc = x.MedianBlockCollection(["U235", "U238"])
+    bc.validBlockTypes = None
+    lfps = test_lumpedFissionProduct.getDummyLFPFile().createLFPsFromFile()
+    for bu in (1.0, 2.0, 3.0):
+        b = buildSimpleFuelBlock()
+        b.p.percentBu = bu
+        b.setLumpedFissionProducts(lfps)
+        bc.append(b)
+    try:
+        rep = bc.createRepresentativeBlock()
+    except AttributeError as e:
+        return False, f"median representative of blocks with LFPs cannot be built: {e}"
+    return rep.p.percentBu == 2.0, f"median representative burnup {rep.p.percentBu}"
+
+
+ALL = dict(F30=F30, F29=F29, F28=F28, F26=F26, F27=F27, F24=F24, F25=F25, F23=F23, F10=F10, F12=F12, F17=F17, F18=F18, F19=F19, F11=F11, F13=F13, F20=F20, F21=F21, F22=F22, F1=F1, F2=F2, F3=F3, F4=F4, F5=F5, F6=F6, F7=F7, F8=F8, F9=F9, F14=F14)
 
 if __name__ == "__main__":
     sys.path.insert(0, os.getcwd())
